@@ -23,7 +23,7 @@ Actions ``A`` (lists, first element is the opcode)::
     ["expect", eid, ok, [[dname, hex]..]]      self.expectThat(...)  (ok=false: mismatch carrying details)
     ["assert", eid, ok, [[dname, hex]..]]      self.assertThat(...)
     ["force"]                                  self.force_failure = True
-    ["onexc", hid, raises]                     self.addOnException(handler)
+    ["onexc", hid, raises(, "eq")]             self.addOnException(handler); "eq": a callable object equal to its siblings
     ["handler", exc-name, report, position]    insert into self.exception_handlers now
     ["return", value]                          stop this action list returning value
 
@@ -512,6 +512,9 @@ def run_actions(env, case, actions, where):
                 env.log("onexc_called", hid, type(exc_info[1]).__name__)
                 if raises:
                     raise RuntimeError("onexc-handler-raised:" + hid)
+            if len(a) > 3 and a[3] == "eq":
+                # a callable object that compares equal to its siblings: still a handler of its own
+                handler = EqHandler(handler)
             case.addOnException(handler)
         elif op == "onexc_for":
             hid, toks = a[1], set(a[2])
@@ -627,6 +630,22 @@ def build_case(program, env, runner_factory=None, default_result=None):
             env.log("onexc_called", hid, type(exc_info[1]).__name__)
         case.addOnException(handler)
     return case
+
+
+class EqHandler:
+    """addOnException handler objects that all compare (and hash) equal, like two instances of a dataclass."""
+
+    def __init__(self, fn):
+        self.fn = fn
+
+    def __call__(self, exc_info):
+        return self.fn(exc_info)
+
+    def __eq__(self, other):
+        return isinstance(other, EqHandler)
+
+    def __hash__(self):
+        return 7
 
 
 def is_decor_skip(program):
